@@ -376,6 +376,15 @@ def reg4_6(ctx: Ctx) -> None:
     # REG-6 attributes
     want = {"wrapper.register": "register", "wrapper.dispatch": "dispatch", "wrapper.registry": None}
     got = {norm(s.targets[0]): norm(s.value) for s in dec.body if isinstance(s, ast.Assign) and norm(s.targets[0]).startswith("wrapper.")}
+    for s in dec.body:
+        # wrapper.__dict__.update(register=..., ...) / setattr(wrapper, "register", ...)
+        c_ = s.value if isinstance(s, ast.Expr) and isinstance(s.value, ast.Call) else None
+        if c_ is not None and norm(c_.func) in ("wrapper.__dict__.update", "vars(wrapper).update") and not c_.args:
+            for k_ in c_.keywords:
+                if k_.arg:
+                    got.setdefault(f"wrapper.{k_.arg}", norm(k_.value))
+        elif c_ is not None and norm(c_.func) == "setattr" and len(c_.args) == 3 and norm(c_.args[0]) == "wrapper" and isinstance(c_.args[1], ast.Constant) and isinstance(c_.args[1].value, str):
+            got.setdefault(f"wrapper.{c_.args[1].value}", norm(c_.args[2]))
     for k, v in want.items():
         if k not in got:
             ctx.R.fail("REG-6", mod, dec, f"the documented attribute {k.split('.')[1]} is not set on the dispatcher", construct=k)
